@@ -80,6 +80,9 @@ pub enum Op {
 	Restart { w: u16 },
 	/// sender finalizes with a reply whose partial signature was corrupted in transit (must be refused)
 	FinalizeTampered { s: u16 },
+	/// a second, different reply to an already finalized slate (the same S1 received into the responder's other
+	/// account) is given to the sender's finalize: must be refused
+	RefinalizeOtherReply { s: u16 },
 	/// wallet w pays the other wallet, which immediately spends the still-unconfirmed output back with
 	/// minimum_confirmations = 0; both transactions are posted and mined (two blocks) before anyone refreshes
 	ZeroConfRelay { w: u16 },
@@ -1086,6 +1089,21 @@ impl Sim {
 					}
 				}
 			}
+			Op::RefinalizeOtherReply { s } => {
+				match self.pick_slate(*s, |r| r.flow == Flow::Send && r.initiator != r.responder && r.stage == Stage::Finalized && !r.is_cancelled() && r.mined_at.is_none()) {
+					None => OpOutcome::noop("refinalize-other-reply"),
+					Some(si) => {
+						let r = self.refinalize_other_reply(si);
+						OpOutcome {
+							effective: true,
+							kind: "refinalize-other-reply".into(),
+							result: Some(r),
+							slate: Some(si),
+							wallet: Some(self.slates[si].initiator),
+						}
+					}
+				}
+			}
 			Op::ZeroConfRelay { w } => {
 				let w = idx(*w, nw);
 				let r = self.zero_conf_relay(w);
@@ -1208,6 +1226,28 @@ impl Sim {
 		match r {
 			Err(_) => Ok(()),
 			Ok(()) => Err("tampered reply was accepted".into()),
+		}
+	}
+
+	/// See Op::RefinalizeOtherReply. Ok(()) = refused (expected); Err("...accepted") otherwise.
+	pub fn refinalize_other_reply(&mut self, si: usize) -> Result<(), String> {
+		let (w, acct, to) = (self.slates[si].initiator, self.slates[si].initiator_acct, self.slates[si].responder);
+		let s1 = wire(&self.slates[si].s1)?;
+		let first_acct = self.slates[si].responder_acct.unwrap_or(0);
+		let other_acct = (first_acct + 1) % ACCOUNTS.len();
+		let before = self.output_commits(to);
+		let s2b = self.with_account(to, other_acct, |s| s.w(to).foreign().receive_tx(&s1, None, None).map_err(|e| e.to_string()));
+		let s2b = match s2b {
+			Ok(s) => s,
+			// e.g. already received into that account too, or expired: nothing to try
+			Err(e) => return Err(format!("no second reply available: {}", e)),
+		};
+		self.attribute_new(to, other_acct, &before);
+		let s2b = wire(&s2b)?;
+		let r = self.with_account(w, acct, |s| s.w(w).owner.finalize_tx(s.w(w).m(), &s2b).map(|_| ()).map_err(|e| e.to_string()));
+		match r {
+			Err(_) => Ok(()),
+			Ok(()) => Err("a finalized slate was finalized again with a different reply: accepted".into()),
 		}
 	}
 
